@@ -111,8 +111,9 @@ impl<'a, P: ?Sized + PathImpl> PathMutImpl<'a, P> {
 		} else {
 			let bytes = self.as_bytes();
 			let mut start_offset = 0usize;
-			if (self.follows_authority || bytes.len() > 3) && bytes.ends_with(b"/./") {
-				// we can remove the `./` here.
+			if self.follows_authority && bytes == b"/./" {
+				// the `.` only shields the empty segment from the leading
+				// `/`: we can remove the `./` here.
 				start_offset = 2;
 			};
 
@@ -121,7 +122,7 @@ impl<'a, P: ?Sized + PathImpl> PathMutImpl<'a, P> {
 			allocate_range(self.buffer, start..self.end, len);
 
 			self.buffer[start] = b'/';
-			self.end += len - start_offset;
+			self.end = self.end - start_offset + len;
 			let segment_offset = start + 1;
 			self.buffer[segment_offset..self.end].copy_from_slice(segment.as_bytes());
 		}
